@@ -79,10 +79,21 @@ def sorted_fields(ctx) -> Set[str]:
     return set(fields_of(ctx).sorted)
 
 
-def direct_writes(f: Func) -> Dict[str, List[ast.AST]]:
+def _is_elementwise_map(n: ast.AST) -> bool:
+    """`self.X = [g(v) for v in self.X]` -- same length, values renumbered."""
+    if not (isinstance(n, ast.Assign) and len(n.targets) == 1 and is_self_attr(n.targets[0])):
+        return False
+    v = n.value
+    return isinstance(v, ast.ListComp) and len(v.generators) == 1 and not v.generators[0].ifs \
+        and is_self_attr(v.generators[0].iter, n.targets[0].attr)
+
+
+def direct_writes(f: Func, structural_only: bool = False) -> Dict[str, List[ast.AST]]:
     """self.X fields written (assigned or mutated in place) directly in f."""
     out: Dict[str, List[ast.AST]] = {}
     for n in walk_local(f.node):
+        if structural_only and _is_elementwise_map(n):
+            continue
         if isinstance(n, (ast.Assign, ast.AugAssign, ast.AnnAssign, ast.Delete)):
             ts = n.targets if isinstance(n, (ast.Assign, ast.Delete)) else [n.target]
             for t in ts:
@@ -111,15 +122,16 @@ def self_calls(ctx, f: Func) -> List[Func]:
     return out
 
 
-def transitive_writes(ctx, f: Func, seen: Optional[Set[str]] = None) -> Dict[str, str]:
+def transitive_writes(ctx, f: Func, seen: Optional[Set[str]] = None,
+                      structural_only: bool = False) -> Dict[str, str]:
     """field -> qualname of the method that writes it (first found)."""
     seen = seen or set()
     if f.qual in seen:
         return {}
     seen.add(f.qual)
-    out: Dict[str, str] = {k: f.qual for k in direct_writes(f)}
+    out: Dict[str, str] = {k: f.qual for k in direct_writes(f, structural_only)}
     for g in self_calls(ctx, f):
-        for k, v in transitive_writes(ctx, g, seen).items():
+        for k, v in transitive_writes(ctx, g, seen, structural_only).items():
             out.setdefault(k, v)
     return out
 
@@ -174,7 +186,8 @@ def parallel_containers(ctx):
     fl = fields_of(ctx)
     group = fl.sorted | fl.pos | fl.count
     for op in operations(ctx):
-        w = transitive_writes(ctx, op)
+        # element-wise renumbering keeps lengths: only structural writes must go together
+        w = transitive_writes(ctx, op, structural_only=True)
         touched = {k for k in w if k in group}
         if not touched:
             continue
